@@ -92,8 +92,8 @@ def task_source(kind):
         'generated': "return ({'i': i, 'run': _S['run']} for i in range(0 if _S.get('empty') else 6))",
         'generated_lazy': "d = self.get_data_object(); d.set_value([{'i': i, 'run': _S['run']} for i in range(0 if _S.get('empty') else 6)]); return d",
         'listnumpy': "return [np.arange(5) + i + _S['run'] for i in range(0 if _S.get('empty') else 3)]",
-        'dir': "d = self.get_data_object()\n        (d.dir / 'a.txt').write_text('A' * 30 + str(_S['run']))\n        (d.dir / 'sub').mkdir()\n        (d.dir / 'sub' / 'b.txt').write_text('B' * 30)\n        return d",
-        'continues': "d = self.get_data_object()\n        (d.dir / 'part1').write_text('P1-' + str(_S['run']))\n        (d.dir / 'part2').write_text('P2')\n        d.finished()\n        return d",
+        'dir': "d = self.get_data_object()\n        (d.dir / 'a.txt').write_text('A' * 30 + str(_S['run']))\n        if _S['fault'] == 'raise_midway':\n            raise RuntimeError('boom midway')\n        (d.dir / 'sub').mkdir()\n        (d.dir / 'sub' / 'b.txt').write_text('B' * 30)\n        return d",
+        'continues': "d = self.get_data_object()\n        (d.dir / 'part1').write_text('P1-' + str(_S['run']))\n        if _S['fault'] == 'raise_midway':\n            raise RuntimeError('boom midway')\n        (d.dir / 'part2').write_text('P2')\n        d.finished()\n        return d",
     }[kind]
     extra = '        data_class = ListOfNumpyData\n' if kind == 'listnumpy' else ''
     return ('from typing import Generator\nimport numpy as np\nimport pandas as pd\nfrom taskchain import Task\n'
@@ -101,6 +101,7 @@ def task_source(kind):
             'class Victim(Task):\n    class Meta:\n        task_group = "c05"\n' + extra +
             f'    def run(self) -> {ret}:\n        _S["runs"] += 1\n        if _S["fault"] == "raise":\n            raise RuntimeError("boom")\n'
             f'        if _S["fault"] == "mistyped":\n            return 12345\n'
+            f'        if _S["fault"] == "mistyped_iterable":\n            return {{"a": 1, "b": 2}}\n'
             f'        if _S["fault"] == "unserializable":\n            return _S["bad"]\n        {body}\n')
 
 
@@ -135,12 +136,17 @@ class Faults(Suite):
             for forced in (False, True):
                 for leftover in (('none', 'tmp', 'old', 'both') if kind in DIRKINDS else ('none', 'tmp')):
                     out.append(dict(kind=kind, forced=forced, fault='crash', leftover=leftover))
-            for fault in ('raise', 'mistyped', 'unserializable'):
+            for fault in ('raise', 'mistyped', 'unserializable', 'mistyped_iterable', 'raise_midway'):
                 if fault == 'unserializable' and kind not in ('json', 'generated'):
                     continue
                 if fault == 'mistyped' and kind in ('generated', 'generated_lazy'):
                     continue
-                out.append(dict(kind=kind, forced=rng.random() < 0.5, fault=fault))
+                if fault == 'mistyped_iterable' and kind not in ('generated', 'numpy', 'pandas'):
+                    continue
+                if fault == 'raise_midway' and kind not in ('dir', 'continues'):
+                    continue
+                for forced in ((False, True) if fault == 'raise_midway' else (rng.random() < 0.5,)):
+                    out.append(dict(kind=kind, forced=forced, fault=fault))
         return out
 
     def run_impl(self, case):
@@ -262,6 +268,7 @@ class Faults(Suite):
                     state['run'], state['fault'], state['runs'] = 3, None, 0
                     t = the_chain(m, d)['c05:victim']
                     out = dict(has=bool(t.has_data))
+                    out['work_after_query'] = sorted(str(p.relative_to(d)) for p in Path(d).rglob('*') if '_tmp' in str(p))
                     try:
                         out['value'] = describe_result(kind, t.value)
                     except Exception as e:
@@ -305,8 +312,14 @@ class Faults(Suite):
             if case['kind'] == 'dir':
                 if not any(n.endswith('_error') for n in names) or any(n.endswith('_tmp') for n in names):
                     return f'{where0}: the work directory of the failed run was not set aside ({names})'
-            if case['kind'] == 'continues' and case['fault'] == 'raise' and not any(n.endswith('_tmp') for n in names):
+            if case['kind'] == 'continues' and case['fault'] in ('raise', 'raise_midway') and not any(n.endswith('_tmp') for n in names):
                 return f'{where0}: the work directory of the resumable task was not kept ({names})'
+            if case['kind'] == 'continues' and case['fault'] == 'raise_midway':
+                for r in obs['recoveries']:
+                    if not any(p.endswith('_tmp/part1') for p in r.get('work_after_query', [])):
+                        return (f'{where0}: after the interrupted run a later chain that merely asks has_data finds the work '
+                                f'directory without the part already written ({r.get("work_after_query")}): it is kept for '
+                                f'continuation until finished')
         for r in obs['recoveries']:
             where = f'{case["kind"]}, {"forced recomputation" if case["forced"] else "first computation"}, {case["fault"]}, state {r["label"]}'
             if 'child_error' in r:
